@@ -50,8 +50,16 @@ def suite(wt):
 
 def main():
     prop = sys.argv[1]
+    rest = sys.argv[2:]
     src = f"/tmp/seed-{prop}/_out"
-    ids = sys.argv[2:] or sorted(f[len("change_") : -len(".diff")] for f in os.listdir(src) if f.startswith("change_") and f.endswith(".diff"))
+    offset = 0
+    if "--src" in rest:
+        src = rest[rest.index("--src") + 1]
+        del rest[rest.index("--src") : rest.index("--src") + 2]
+    if "--offset" in rest:
+        offset = int(rest[rest.index("--offset") + 1])
+        del rest[rest.index("--offset") : rest.index("--offset") + 2]
+    ids = rest or sorted(f[len("change_") : -len(".diff")] for f in os.listdir(src) if f.startswith("change_") and f.endswith(".diff"))
     for i in ids:
         patch, dm, notes = (os.path.join(src, f) for f in (f"change_{i}.diff", f"demo_{i}.py", f"notes_{i}.md"))
         if not (os.path.exists(patch) and os.path.exists(dm)):
@@ -74,7 +82,7 @@ def main():
             if not ok:
                 print(prop, i, "REJECTED: repository tests fail with the change:", missing)
                 continue
-            dst = os.path.join(ROOT, "seeded", f"{prop}-{i}")
+            dst = os.path.join(ROOT, "seeded", f"{prop}-{int(i) + offset}")
             os.makedirs(dst, exist_ok=True)
             shutil.copy(patch, os.path.join(dst, "patch.diff"))
             shutil.copy(dm, os.path.join(dst, "demo.py"))
